@@ -180,7 +180,7 @@ def run_check(prop, tier, repo_root, only=None, verbose=False):
         return prop in c.serves or any(prop in (v.get("__override__") or {}).get("serves", []) for v in c.variants.values())
     keys = [k for k, c in db.contracts.items() if serves(c) and not c.assumed and not (c.bounded and not c.bounded_clauses) and "::" in k
             and not c.inline_in_harness and not (c.inline and not c.ensures and not c.raises)]
-    bounded = [c for c in db.contracts.values() if prop in c.serves and c.bounded]
+    bounded = [c for c in db.contracts.values() if prop in c.serves and (c.bounded or c.bounded_extra)]
     if only:
         keys = [k for k in keys if only in k]
     lemma_idx = [i for i, l in enumerate(db.lemmas) if prop in l.get("serves", [])]
@@ -277,12 +277,13 @@ def run_check(prop, tier, repo_root, only=None, verbose=False):
     for c in ([] if only else bounded):
         import subprocess
         try:
-            out = subprocess.run(["/venv/bin/python", os.path.join(HERE, "replaylib", "bounded.py"), c.bounded, repo_root, tier],
+            out = subprocess.run(["/venv/bin/python", os.path.join(HERE, "replaylib", "bounded.py"), c.bounded or c.bounded_extra, repo_root, tier],
                                  capture_output=True, text=True, timeout=900)
             res = json.loads(out.stdout.strip().splitlines()[-1])
         except Exception as exc:  # noqa: BLE001
-            res = {"name": c.bounded, "error": f"{type(exc).__name__}: {exc}"}
-        res["label"] = "bounded (never counted as proved)"
+            res = {"name": c.bounded or c.bounded_extra, "error": f"{type(exc).__name__}: {exc}"}
+        res["label"] = "bounded (never counted as proved)" if c.bounded else \
+            "bounded native check run in addition to the proof of the same function (never counted)"
         extra["bounded"].append(res)
         if res.get("n_failures"):
             extra["bounded_failures"].append(res)
